@@ -106,12 +106,37 @@ def rule_R14(ctx, rep, config="c-lib"):
                         if S.op != "store" or S.ops[0].get("k") != "i" or S.ops[0].get("v") != d:
                             continue
                         cell = resolve_addr(f, S.ops[1])
+                        if cell.root[0] == "a" and f.args[cell.root[1]].get("name") == "agg.result" and all(st[0] == "f" for st in cell.steps):
+                            # the object the function returns by value: the pointer leaves with the return
+                            ckey0 = (cell.root, tuple(cell.steps))
+                            over = [x for x in f.all_insts() if x.op == "store" and x is not S and (lambda q: (q.root, tuple(q.steps)) == ckey0)(resolve_addr(f, x.ops[1]))]
+                            if path_exists(f, S, g, over + finishes):
+                                rets = [r_ for r_ in f.all_insts() if r_.op == "ret" and path_exists(f, g, r_, over)]
+                                if rets:
+                                    nptr += 1
+                                    rep.violation("R14", "%s/%s" % (f.name, cont), "a pointer into `%s' is put into the object the function returns before an operation "
+                                                  "that may move the container, and not taken again afterwards: the caller gets a dangling pointer" % cont, where=S.where(),
+                                                  witness=["pointer saved at " + S.where(), "container may move at " + g.where(), "returned at " + rets[0].where()])
+                            continue
                         if cell.root[0] != "alloca" or any(st[0] != "f" for st in cell.steps):
                             continue
                         ckey = (cell.root, tuple(cell.steps))
                         cell_stores = [x for x in f.all_insts() if x.op == "store" and (lambda q: (q.root, tuple(q.steps)) == ckey)(resolve_addr(f, x.ops[1]))]
                         if not path_exists(f, S, g, [x for x in cell_stores if x is not S] + finishes):
                             continue
+                        # the whole local object is copied out (pushed on a stack, stored into a table) after the growth: the stale pointer leaves with it
+                        for C in f.calls():
+                            if not C.args or not ((C.callee or "").startswith("llvm.memcpy") or C.callee in ("memcpy",)):
+                                continue
+                            srcp = resolve_addr(f, C.args[1])
+                            if srcp.root != cell.root or srcp.steps and tuple(srcp.steps) != tuple(cell.steps)[:len(srcp.steps)]:
+                                continue
+                            if not path_exists(f, g, C, cell_stores):
+                                continue
+                            nptr += 1
+                            rep.violation("R14", "%s/%s" % (f.name, cont), "a pointer into `%s' is saved in a local object before an operation that may move the container, "
+                                          "and the object is copied out afterwards: the copy carries a dangling pointer" % cont, where=C.where(),
+                                          witness=["pointer saved at " + S.where(), "container may move at " + g.where(), "object copied at " + C.where()])
                         for L in f.all_insts():
                             if L.op != "load" or (lambda q: (q.root, tuple(q.steps)) != ckey)(resolve_addr(f, L.ops[0])):
                                 continue
